@@ -157,6 +157,31 @@ Proof. intros maxit s0 r Hs. destruct maxit as [|m]; cbn [C10_run]; [discriminat
 Lemma C10_run_some : forall maxit s0, (0 < maxit)%nat -> exists r, C10_run F step cur stop maxit s0 = Some r.
 Proof. intros [|m] s0 H; [lia|]. eexists. reflexivity. Qed.
 End LoopInv.
+(* the loop result is the start state advanced by j steps, 1 <= j <= fuel, whatever the stopping rule *)
+Lemma C10_loop_is_steps : forall (S : Type) (step : nat -> S -> S) cur stop fuel k s hist, (0 < fuel)%nat ->
+  exists j, (1 <= j <= fuel)%nat /\ fst (C10_loop F step cur stop fuel k s hist) = C10_steps step j k s.
+Proof. intros S step cur stop. induction fuel as [|f IH]; intros k s hist Hf; [lia|].
+  cbn [C10_loop]. destruct (stop (cur (step k s) :: hist)).
+  - exists 1%nat. split; [lia|reflexivity].
+  - destruct f as [|f'].
+    + exists 1%nat. split; [lia|reflexivity].
+    + destruct (IH (Datatypes.S k) (step k s) (cur (step k s) :: hist)) as [j [Hj E]]; [lia|].
+      exists (Datatypes.S j). split; [lia|]. rewrite E. reflexivity. Qed.
+Lemma C10_run_is_steps : forall (S : Type) (step : nat -> S -> S) cur stop maxit s0 r,
+  C10_run F step cur stop maxit s0 = Some r -> exists j, (1 <= j <= maxit)%nat /\ fst r = C10_steps step j 1 s0.
+Proof. intros S step cur stop maxit s0 r E. destruct maxit as [|m]; [discriminate|]. unfold C10_run in E.
+  assert (Er : r = C10_loop F step cur stop (Datatypes.S m) 1 s0 [cur s0]) by congruence. rewrite Er.
+  apply (C10_loop_is_steps S step cur stop (Datatypes.S m) 1 s0 [cur s0]). lia. Qed.
+(* an invariant of every step is an invariant of the iterates *)
+Lemma C10_steps_inv : forall (S : Type) (step : nat -> S -> S) (I : S -> Prop), (forall k s, I s -> I (step k s)) ->
+  forall j k s, I s -> I (C10_steps step j k s).
+Proof. intros S step I H. induction j as [|j IH]; intros k s Hs; cbn [C10_steps]; [exact Hs|]. apply IH, H, Hs. Qed.
+Lemma C10_steps_last : forall (S : Type) (step : nat -> S -> S) j k s,
+  C10_steps step (Datatypes.S j) k s = step (k + j)%nat (C10_steps step j k s).
+Proof. intros S step. induction j as [|j IH]; intros k s.
+  - cbn [C10_steps]. now rewrite Nat.add_0_r.
+  - change (C10_steps step (Datatypes.S (Datatypes.S j)) k s) with (C10_steps step (Datatypes.S j) (Datatypes.S k) (step k s)).
+    rewrite IH. cbn [C10_steps]. f_equal. lia. Qed.
 Lemma C10_run_some_iff : forall (S : Type) (step : nat -> S -> S) cur stop maxit s0,
   (exists r, C10_run F step cur stop maxit s0 = Some r) <-> (0 < maxit)%nat.
 Proof. intros S step cur stop maxit s0. split.
